@@ -517,7 +517,13 @@ func (c *c10Oracle) Check(w *World, o *Obs) []Violation {
 	}
 	cookieAuth := o.presented("cookie") != nil && o.uidBefore() == "" && w.Cfg.hasModule("remember") && !w.Cfg.hasSetup("expire")
 	if o.Method == w.Cfg.LogoutMethod {
-		if o.errorOutcome() || o.FaultFired != "" {
+		if o.FaultFired != "" {
+			return out
+		}
+		if o.errorOutcome() {
+			// nothing was injected: the library itself turned the logout into an error
+			out = append(out, viol("C10", "logout_failed", "logout", o,
+				fmt.Sprintf("the logout request ended with an error outcome (status %d, %v) and left the session as it was", o.Status, o.HandlerErrs)))
 			return out
 		}
 		class := sessionStateClass(o.SessBefore)
